@@ -680,7 +680,8 @@ Proof.
     exists (p2 ++ p1). rewrite app_assoc. reflexivity.
   - destruct (opt_is _ _); [|discriminate]. inversion H; subst. exists [(x, width t)]. reflexivity.
   - destruct (_ && _); [|discriminate]. exists []. simpl. congruence.
-  - destruct (_ && _); [|discriminate]. exists []. simpl. congruence.
+  - destruct (wt_expr G e); [|discriminate].
+    destruct (_ && _); [|discriminate]. exists []. simpl. congruence.
   - destruct (opt_is _ _); [|discriminate].
     destruct (wt_stmt sigs rets G s1), (wt_stmt sigs rets G s2); try discriminate.
     exists []. simpl. congruence.
@@ -886,10 +887,10 @@ Section StmtProof.
       apply env_ok_update with (w := width t); [|exact Tx|exact O2|exact B2].
       rewrite <- app_assoc. apply env_ok_app. exact HE.
     - (* SStore *)
-      simpl in HT. destruct (opt_is (tlookup x G) tw) eqn:Tx; [|discriminate].
-      destruct (opt_is (wt_expr G e) w) eqn:T1; [|discriminate].
+      simpl in HT. destruct (wt_expr G e) as [we|] eqn:T1; [|discriminate].
+      destruct (opt_is (tlookup x G) tw) eqn:Tx; [|discriminate].
       simpl in HT. destruct (Nat.leb (off + w) tw); [|discriminate].
-      inversion HT; subst G'; clear HT. apply opt_is_true in T1. apply opt_is_true in Tx.
+      inversion HT; subst G'; clear HT. apply opt_is_true in Tx.
       simpl in HL.
       destruct (lower_expr ce e (length vs)) as [c1 o1] eqn:L1.
       destruct (lower_expr_ok _ _ _ _ _ _ _ _ HE T1 L1) as [t1 [R1 [Ln1 [O1 B1]]]].
@@ -1263,3 +1264,77 @@ Proof. vm_compute. auto. Qed.
 (* every typed statement of the statement-level theorem, for the record:
    [lower_stmt_ok] (all nine statement forms, loops by induction on the
    iteration count, calls through the hypothesis discharged in [mk_lcall_ok]). *)
+
+(* ------------------------------------------------ amov: the frame property *)
+(* A store (amov v arr $from $to: arr[from:to] = v) takes only the low
+   to-from bits of the value, however many wires the value has (a literal in
+   its 32/64-bit container, a longer source array of copy()), and leaves every
+   bit of the array operand outside [from,to) as it was. *)
+Lemma pow2_add a b : pow2 (a + b) = (pow2 a * pow2 b)%N.
+Proof. unfold pow2. rewrite Nat2N.inj_add. apply N.pow_add_r. Qed.
+
+Lemma store_sem_parts tw off w a v : off + w <= tw ->
+  let r := store_sem tw off w a v in
+  norm off r = norm off (norm tw a) /\
+  (r / pow2 (off + w) = norm tw a / pow2 (off + w))%N /\
+  slice_sem off w r = norm w v.
+Proof.
+  intros Hle r. unfold r, store_sem, slice_sem.
+  set (a' := norm tw a). set (lo := norm off a'). set (m := norm w v).
+  set (hi := (a' / pow2 (off + w))%N).
+  assert (Ha : (a' < pow2 tw)%N) by apply norm_lt.
+  assert (Hlo : (lo < pow2 off)%N) by apply norm_lt.
+  assert (Hm : (m < pow2 w)%N) by apply norm_lt.
+  pose proof (pow2_nz off) as Zo. pose proof (pow2_nz w) as Zw. pose proof (pow2_nz (off + w)) as Zow.
+  assert (Esplit : pow2 tw = (pow2 (off + w) * pow2 (tw - (off + w)))%N).
+  { rewrite <- pow2_add. f_equal. lia. }
+  assert (Hhi : (hi < pow2 (tw - (off + w)))%N).
+  { unfold hi. apply N.div_lt_upper_bound; [exact Zow|]. rewrite <- Esplit. exact Ha. }
+  assert (Elow : (lo + m * pow2 off < pow2 (off + w))%N) by (rewrite pow2_add; nia).
+  assert (HX : (lo + m * pow2 off + hi * pow2 (off + w) < pow2 tw)%N) by (rewrite Esplit; nia).
+  rewrite (norm_small tw) by exact HX.
+  split; [|split].
+  - unfold norm at 1.
+    replace (lo + m * pow2 off + hi * pow2 (off + w))%N
+      with (lo + (m + hi * pow2 w) * pow2 off)%N by (rewrite pow2_add; ring).
+    rewrite N.mod_add by exact Zo. apply N.mod_small. exact Hlo.
+  - rewrite N.div_add by exact Zow. rewrite N.div_small by exact Elow. reflexivity.
+  - replace (lo + m * pow2 off + hi * pow2 (off + w))%N
+      with (lo + (m + hi * pow2 w) * pow2 off)%N by (rewrite pow2_add; ring).
+    rewrite N.div_add by exact Zo. rewrite (N.div_small lo) by exact Hlo. rewrite N.add_0_l.
+    unfold norm at 1. rewrite N.mod_add by exact Zw. apply N.mod_small. exact Hm.
+Qed.
+
+Lemma store_sem_frame tw off w a v i : off + w <= tw ->
+  (i < N.of_nat off \/ N.of_nat (off + w) <= i)%N ->
+  N.testbit (store_sem tw off w a v) i = N.testbit (norm tw a) i.
+Proof.
+  intros Hle Hi. destruct (store_sem_parts tw off w a v Hle) as [P1 [P2 _]].
+  destruct Hi as [Hi|Hi].
+  - rewrite <- (N.mod_pow2_bits_low (store_sem tw off w a v) (N.of_nat off) i Hi).
+    rewrite <- (N.mod_pow2_bits_low (norm tw a) (N.of_nat off) i Hi).
+    f_equal. exact P1.
+  - replace i with (i - N.of_nat (off + w) + N.of_nat (off + w))%N by (apply N.sub_add; exact Hi).
+    rewrite <- !N.div_pow2_bits. f_equal. exact P2.
+Qed.
+
+(* the same for the instruction as the compiler emits it *)
+Lemma amov_instr_frame vs ov oa from to out aux i :
+  from <= to -> to <= s_bits out ->
+  (i < N.of_nat from \/ N.of_nat to <= i)%N ->
+  N.testbit (eval_instr vs (mkInstr Oamov [ov; oa; kconst from; kconst to] out aux)) i
+  = N.testbit (norm (s_bits out) (opnd_val vs oa)) i.
+Proof.
+  intros H1 H2 Hi. rewrite eval_amov, !opnd_const_kconst.
+  apply store_sem_frame; [lia|]. replace (from + (to - from)) with to by lia. exact Hi.
+Qed.
+
+(* ... and the stored slot holds the low to-from bits of the value *)
+Lemma amov_instr_slot vs ov oa from to out aux :
+  from <= to -> to <= s_bits out ->
+  slice_sem from (to - from) (eval_instr vs (mkInstr Oamov [ov; oa; kconst from; kconst to] out aux))
+  = norm (to - from) (opnd_val vs ov).
+Proof.
+  intros H1 H2. rewrite eval_amov, !opnd_const_kconst.
+  apply store_sem_parts. lia.
+Qed.
